@@ -8,6 +8,7 @@ package main
 
 import (
 	"context"
+	"encoding/json"
 	"errors"
 	"fmt"
 	"math/big"
@@ -18,6 +19,7 @@ import (
 	"github.com/formancehq/ledger/internal/machine"
 	"github.com/formancehq/ledger/internal/machine/script/compiler"
 	"github.com/formancehq/ledger/internal/machine/vm"
+	"github.com/formancehq/ledger/internal/machine/vm/program"
 	"github.com/formancehq/stack/libs/go-libs/metadata"
 )
 
@@ -424,7 +426,13 @@ func genNumscript(r *rng, n int, tier string, emit func(J)) {
 						}
 					}
 				}
-				if !g.r.p(4) {
+				dupKey := false
+				for _, t := range ameta {
+					if t[0] == a && t[1] == v.origin["key"].(string) {
+						dupKey = true // one stored value per (account, key)
+					}
+				}
+				if !dupKey && !g.r.p(4) {
 					val := v.value
 					if g.r.p(3) {
 						val = "@@"
@@ -708,12 +716,25 @@ func uniqSortedNoWorld(xs []string) []string {
 	return out
 }
 
+// execNumscript compiles once and runs the SAME compiled program twice (C12: an execution leaves nothing behind
+// that changes a later one; C08: a cached program behaves like a fresh one).
 func execNumscript(in J) J {
 	text, _ := in["text"].(string)
 	prog, err := compiler.Compile(text)
 	if err != nil {
 		return J{"err": "compile_error", "stage": "compile"}
 	}
+	first := safeExec(func(J) J { return runCompiled(prog, text, in) }, in)
+	second := safeExec(func(J) J { return runCompiled(prog, text, in) }, in)
+	b1, _ := json.Marshal(first)
+	b2, _ := json.Marshal(second)
+	if string(b1) != string(b2) {
+		first["unstable"] = second
+	}
+	return first
+}
+
+func runCompiled(prog *program.Program, text string, in J) J {
 	store := storeFromInput(in)
 	m := vm.NewMachine(*prog)
 	m.Printer = func(ch chan machine.Value) {
